@@ -118,7 +118,7 @@ def check_group(group):
     tS = sympy.Rational(tq.numerator, tq.denominator)
     t0S = sympy.Rational(t0q.numerator, t0q.denominator)
     ncomp = len(exp["ret"])
-    scale = max([abs(float(terms.to_fraction(v))) for v in case0["in"]["args"].values()] + [1.0])
+    scale = float(terms.to_fraction(exp["scale"]))
     vals = [_mp(e.subs(t, tS)) for e in exprs]
     derivs = [_mp(sympy.diff(e, t).subs(t, tS)) for e in exprs]
     ref = {"value": [str(v) for v in vals], "how": how}
@@ -276,7 +276,7 @@ def run(ctx):
         reps = [dict(g[0], _g=i) for i, g in enumerate(groups)]
         for r in reps:
             r["cls"] = ":".join(r["cls"].split(":")[:3]) + (":t0" if r["cls"].endswith(":t0") else "")
-        sel = ctx.pick(reps, 260)
+        sel = ctx.pick(reps, 200)
         groups = [groups[r["_g"]] for r in sel]
     ctx.exhaustive = not ctx.quick
     outs = ctx.pmap(_work, groups)
